@@ -20,6 +20,7 @@ mod cli;
 mod c01cli;
 mod c16;
 mod c18;
+mod c06;
 
 use std::path::PathBuf;
 
@@ -62,6 +63,7 @@ fn main() {
     "c01cli" => c01cli::run(&o),
     "c16" => c16::run(&o),
     "c18" => c18::run(&o),
+    "c06" => c06::run(&o),
     "c05" => c05::run_stream(&o, "c05"),
     "c04" => c05::run_stream(&o, "c04"),
     s => { eprintln!("unknown stream {s}"); std::process::exit(2); }
